@@ -571,6 +571,23 @@ impl<A: Cx> World<A> {
                     json!({"v": view(s), "empty": s.is_empty(), "get": g, "nth": n})
                 })
             }
+            "str" => {
+                // every way of turning a sequence into text
+                let via = gs(op, "via");
+                let bytes: Vec<u8> = match via {
+                    "seq_display" => format!("{}", self.regs[gu(&op["src"], "r")].as_ref().unwrap()).into_bytes(),
+                    "seq_into_string" => String::from(self.regs[gu(&op["src"], "r")].as_ref().unwrap().clone()).into_bytes(),
+                    "refseq_into_string" => String::from(self.regs[gu(&op["src"], "r")].as_ref().unwrap()).into_bytes(),
+                    _ => self.with_src(&op["src"], &mut |s| match via {
+                        "display" => format!("{s}").into_bytes(),
+                        "to_string" => s.to_string().into_bytes(),
+                        "string_from" => String::from(s).into_bytes(),
+                        "chars" => s.iter().map(|x| x.to_char()).collect::<String>().into_bytes(),
+                        o => panic!("harness: via {o}"),
+                    }),
+                };
+                json!({"bytes": bytes})
+            }
             "eq" => self.eq_pair(&op["x"], &op["y"]),
             "hash" => json!({"feed": self.feed_operand(&op["x"])}),
             "mapget" => {
@@ -796,6 +813,12 @@ impl<A: Cx> World<A> {
                         "rev" => run!(x.rev_iter(), |v: A| json!(v.to_bits())),
                         "windows" => run!(x.windows(w), |v: &SeqSlice<A>| view(v)),
                         "chunks" => run!(x.chunks(w), |v: &SeqSlice<A>| view(v)),
+                        "windowsvec" | "chunksvec" => {
+                            // FromIterator<&SeqSlice> for Vec<Seq>: owned copies of every item
+                            let v: Vec<Seq<A>> = if kind == "windowsvec" { x.windows(w).collect() } else { x.chunks(w).collect() };
+                            items = v.iter().map(|s| view(s)).collect();
+                            done = true;
+                        }
                         "kmers" => {
                             let (it, d) = kd::kmers_of(x, w, cap);
                             items = it;
